@@ -270,10 +270,14 @@ fn main_script(args: &[String]) {
 
 fn build_matches(reset: &Value) -> bool {
     let b = build_flags();
-    for k in ["fin", "weak", "clean", "dbg"] {
+    for k in ["fin", "weak", "dbg"] {
         if reset.get(k).is_some() && reset[k] != b[k] {
             return false;
         }
+    }
+    // a behaviour that does not use cleaners can be replayed on a build that has them
+    if reset["clean"] == true && b["clean"] != true {
+        return false;
     }
     if reset["auto"] == true && b["auto"] != true {
         return false;
@@ -314,7 +318,8 @@ fn main_replay(args: &[String]) {
             m.insert("dbg".into(), json!(cfg!(debug_assertions)));
             m.insert("run".into(), json!(lineno as u64));
             m.insert("sz".into(), json!(node_box_size::<()>()));
-            if !m.contains_key("clean") {
+            let model_clean = m.get("clean").and_then(|v| v.as_bool()).unwrap_or(false);
+            if !(model_clean && !cfg!(feature = "clean")) {
                 m.insert("clean".into(), json!(cfg!(feature = "clean")));
             }
         }
